@@ -5,6 +5,7 @@ import (
 	"go/constant"
 	"go/token"
 	"go/types"
+	"strings"
 
 	"golang.org/x/tools/go/ssa"
 
@@ -58,30 +59,30 @@ func init() {
 
 	register(&core.Rule{ID: "C04.2", Prop: "C04", MinSites: 3,
 		Desc: "OnOpen has exactly one call site, dominated by opened=true; its function is called only from register0, after addConn on the poller-registration success path",
-		Run: runC04_2})
+		Run:  runC04_2})
 	register(&core.Rule{ID: "C04.3", Prop: "C04", MinSites: 3,
 		Desc: "OnClose has exactly one call site, dominated by the stale guard (c.opened ∧ getConn(c.fd)!=nil) and by delConn(c); every path from it to a return passes c.release()",
-		Run: runC04_3})
+		Run:  runC04_3})
 	register(&core.Rule{ID: "C04.4", Prop: "C04", MinSites: 4,
 		Desc: "conn typestate: every EventHandler.OnOpen/OnTraffic call is made on a conn known open on all paths (no may-close point since), OnClose only in the closing state",
-		Run: func(c *core.Ctx) { runConnState(c, "cb") }})
+		Run:  func(c *core.Ctx) { runConnState(c, "cb") }})
 	register(&core.Rule{ID: "C04.5", Prop: "C04", MinSites: 4,
 		Desc: "asyncWrite/asyncWritev call write/writev only on the c.opened edge and return net.ErrClosed otherwise",
-		Run: runC04_5})
+		Run:  runC04_5})
 	register(&core.Rule{ID: "C04.6", Prop: "C04", MinSites: 2,
 		Desc: "run/orbit: every return after Polling passes closeConns()",
-		Run: func(c *core.Ctx) { runAfterPolling(c, "C04.6") }})
+		Run:  func(c *core.Ctx) { runAfterPolling(c, "C04.6") }})
 	register(&core.Rule{ID: "C04.7", Prop: "C04", MinSites: 10,
 		Desc: "close causes: (*eventloop).close receives literal nil exactly at the local causes (Close action, Close()/CloseWithCallback, EventLoop.Close, shutdown) and a provably non-nil error at the I/O causes",
-		Run: runC04_7})
+		Run:  runC04_7})
 	register(&core.Rule{ID: "C04.8", Prop: "C04", MinSites: 1,
 		Desc: "release() empties the outbound buffer of every stream conn (justifies the outbound-non-empty ⇒ live inference) and is the only place that returns pooled conn buffers",
-		Run: runC04_8})
+		Run:  runC04_8})
 }
 
 // connStateExceptions lists sites accepted although the typestate cannot establish liveness.
 var connStateExceptions = map[string]string{
-	"gnet.(*eventloop).readUDP|EventHandler.OnTraffic on c": "c is either the fresh per-datagram conn or the registered client UDP conn of fd; the registry hit is not nil-checked (dispatch invariant: readUDP runs only for a listener fd or a registered UDP conn, and Recvfrom on a closed fd returns before this point)",
+	"gnet.(*eventloop).readUDP|EventHandler.OnTraffic on c":              "c is either the fresh per-datagram conn or the registered client UDP conn of fd; the registry hit is not nil-checked (dispatch invariant: readUDP runs only for a listener fd or a registered UDP conn, and Recvfrom on a closed fd returns before this point)",
 	"gnet.(*eventloop).register|call gnet.(*eventloop).register0 with c": "the conn arrives across the task boundary from accept0/enroll/EnrollContext, which construct it, never touch it again after a successful Trigger and submit it exactly once (C05.5)",
 }
 
@@ -103,20 +104,24 @@ func runConnState(c *core.Ctx, kind string) {
 			c.Violate(s.unit, s.construct, s.pos, s.msg, s.witness...)
 		}
 	}
-	for _, s := range r.sites {
-		switch kind {
+	want := func(s connSite) bool {
+		switch s.kind {
 		case "cb":
-			if s.kind == "cb" {
-				emit(s)
-			}
-		case "fd":
-			if s.kind == "fd" || s.kind == "call" || s.kind == "close" {
-				emit(s)
-			}
+			return kind == "cb"
+		case "fd", "close":
+			return kind == "fd"
+		case "call", "root":
+			return strings.Contains(s.req, kind)
+		}
+		return false
+	}
+	for _, s := range r.sites {
+		if want(s) {
+			emit(s)
 		}
 	}
-	if kind == "fd" {
-		for _, s := range r.rootReq {
+	for _, s := range r.rootReq {
+		if want(s) {
 			s.ok = false
 			emit(s)
 		}
